@@ -361,12 +361,19 @@ class IndexVals:
         return r
 
     def duplicated(self, *a, **k):
-        if self.labels is None or a or k:
+        keep = a[0] if a else k.get("keep", "first")
+        if self.labels is None or len(a) > 1 or set(k) - {"keep"} or keep not in ("first", "last", False):
             raise Undecided("duplicated() of an index of unknown labels")
-        seen, out = set(), []
-        for l in self.labels:
-            out.append(l in seen)
-            seen.add(l)
+        labs = list(self.labels)
+        if keep is False:
+            out = [labs.count(l) > 1 for l in labs]
+        else:
+            seq = labs if keep == "first" else labs[::-1]
+            seen, out = set(), []
+            for l in seq:
+                out.append(l in seen)
+                seen.add(l)
+            out = out if keep == "first" else out[::-1]
         r = Vec(out)
         r.exact = True
         return r
@@ -552,6 +559,45 @@ class GroupedCol:
         return self._per_group(self._it, "cumsum", a, k)
 
 
+class DType:
+    """the dtype of an array / Series, as far as the model can tell: bool | int | float | object"""
+
+    def __init__(self, kind):
+        self.kind = kind
+        self.name = kind
+
+    def abs_compare(self, op, other, reflected=False):
+        if not isinstance(op, (ast.Eq, ast.NotEq)):
+            raise Undecided("ordering of dtypes")
+        o = _unproxy(other)
+        if isinstance(o, type):
+            name = o.__name__
+        elif isinstance(o, Module):
+            name = o.name.split(".")[-1].rstrip("_").replace("float64", "float").replace("int64", "int")
+        elif isinstance(o, str):
+            name = o.replace("float64", "float").replace("int64", "int").rstrip("_")
+        elif isinstance(o, DType):
+            name = o.kind
+        else:
+            raise Undecided(f"dtype compared with {other!r}")
+        same_ = name == self.kind or (name == "O" and self.kind == "object")
+        return same_ if isinstance(op, ast.Eq) else not same_
+
+    def __repr__(self):
+        return f"dtype({self.kind})"
+
+
+def vec_dtype(v):
+    vals = [x for x in v.v if x is not None]
+    if vals and all(isinstance(x, bool) for x in vals):
+        return DType("bool")
+    if vals and all(isinstance(x, str) for x in vals):
+        return DType("object")
+    if vals and all((isinstance(x, int) and not isinstance(x, bool)) or (isinstance(x, (Term, OrderVal)) and T(x).integer) for x in vals) and len(vals) == len(v.v):
+        return DType("int")
+    raise Undecided("dtype of a mixed / abstract array")
+
+
 class LabelSeries:
     """pd.Series(<dict>): values looked up by label"""
 
@@ -635,6 +681,8 @@ def load_subscript(it, obj, k):
                 return _maskload(d.cols[col], rows)
             if isinstance(rows, int) and isinstance(col, str):
                 return d.cols[col].v[rows]
+        if obj.name == "loc" and isinstance(k, IndexVals) and k.labels is not None:
+            k = list(k.labels)
         if obj.name == "iloc" and isinstance(k, Vec) and k.exact and d.exact and k.v and all(isinstance(i, int) and not isinstance(i, bool) for i in k.v):
             if any(not -d.n <= i < d.n for i in k.v):
                 raise Raised("IndexError", "positional indexers are out-of-bounds")
@@ -728,8 +776,10 @@ def load_subscript(it, obj, k):
             r.exact, r.labels = True, list(k.v)
             return r
         if isinstance(k, Vec) and obj.exact and len(k.v) == len(obj.v) and all(isinstance(m, bool) for m in k.v):
-            r = Vec([x for x, m in zip(obj.v, k.v) if m])          # literal elements: filtered for real
+            r = Vec([x for x, m in zip(obj.v, k.v) if m], fresh=False, aligned=(obj.aligned or ("subset" if obj.fresh else False)))          # literal elements: filtered for real
             r.exact = True
+            if obj.labels is not None and len(obj.labels) == len(obj.v):
+                r.labels = [l for l, m in zip(obj.labels, k.v) if m]
             return r
         if isinstance(k, Vec):
             return _maskload(obj, k)
@@ -803,7 +853,9 @@ def df_select(d, mask):
 def store_subscript(it, obj, k, v, aug=False):
     if hasattr(obj, "abs_setitem"):
         return obj.abs_setitem(it, k, v, aug)
+    accessor = None
     if isinstance(obj, BoundMethod) and obj.name in ("loc", "iloc", "at", "iat"):
+        accessor = obj.name
         obj = obj.obj
     if isinstance(obj, GA):
         obj = obj.data
@@ -812,6 +864,18 @@ def store_subscript(it, obj, k, v, aug=False):
             mask, col = k
         else:
             mask, col = None, k
+        if accessor in ("loc", "at") and isinstance(mask, int) and not isinstance(mask, bool) and obj.labels is not None and isinstance(col, str):
+            # .loc[<label>, col] = v: every row carrying that label (labels may repeat, e.g. after pd.concat without ignore_index)
+            pos = [i for i, l in enumerate(obj.labels) if l == mask]
+            if not pos:
+                raise Undecided(f".loc[{mask!r}, {col!r}] = ... on a table without that label (enlargement)")
+            newcol = list(obj.cols[col].v) if col in obj.cols else [None] * obj.n
+            for i in pos:
+                newcol[i] = v
+            obj.cols[col] = Vec(newcol, aligned=True)
+            if obj.exact:
+                obj.cols[col].exact = True
+            return
         if isinstance(mask, slice) and mask == slice(None, None, None):
             mask = None
         if isinstance(col, int) and not isinstance(col, bool):
@@ -861,6 +925,15 @@ def store_subscript(it, obj, k, v, aug=False):
         if isinstance(v, Vec) and isinstance(v.aligned, str) and obj.index == "range" and not v.fresh:
             raise Raised("IndexMisalignment", f"a Series carrying another table's row labels (index kind: {v.aligned}) is stored into column `{col}` of a table that was renumbered 0..n-1: "
                          "pandas aligns by label, so values land on the wrong rows / become NaN")
+        if mask is None and isinstance(v, Vec) and v.labels is not None and obj.labels is not None and (v.aligned or v.fresh) and list(v.labels) != list(obj.labels):
+            # a labelled Series stored as a column: pandas aligns by label (missing labels -> NaN; a duplicated label cannot be aligned)
+            if len(set(v.labels)) != len(v.labels):
+                raise Raised("ValueError", "cannot reindex on an axis with duplicate labels")
+            newcol = [v.v[v.labels.index(l)] if l in v.labels else None for l in obj.labels]
+            obj.cols[col] = Vec(newcol, aligned=True)
+            if obj.exact:
+                obj.cols[col].exact = True
+            return
         if mask is None:
             obj.cols[col] = Vec(bcast(v, n), aligned=True)
         elif isinstance(mask, Vec):
@@ -926,9 +999,15 @@ def value_attr(it, obj, attr):
         if attr in ("iat", "iloc", "loc", "at"):
             return BoundMethod(obj, attr)
         if attr == "index":
+            if obj.labels is not None and len(obj.labels) == len(obj.v):
+                ix = IndexVals(len(obj.v), list(obj.labels))
+                ix.kind = obj.aligned if isinstance(obj.aligned, str) else "range" if obj.fresh else "any"
+                return ix
             return Opaque("index")
         if attr == "size":
             return NRows(len(obj.v)) if obj.v else 0
+        if attr == "dtype":
+            return vec_dtype(obj)
         if attr == "is_monotonic_increasing":
             if obj.exact and _lits(obj.v) is not None:
                 lv = _lits(obj.v)
@@ -1326,6 +1405,14 @@ def vec_method(it, obj, name, args, kw):
         if num(q) and not isinstance(q, bool):
             return f(obj.v, q)
         raise Undecided(f"searchsorted query {q!r}")
+    if name in ("head", "tail") and obj.exact and (not args or (isinstance(args[0], int) and not isinstance(args[0], bool) and args[0] >= 0)):
+        n_ = args[0] if args else 5
+        sl = slice(0, n_) if name == "head" else slice(max(len(obj.v) - n_, 0), None)
+        r = Vec(obj.v[sl], fresh=obj.fresh, aligned=obj.aligned)
+        r.exact = True
+        if obj.labels is not None:
+            r.labels = list(obj.labels[sl])
+        return r
     if name == "shift" and obj.exact and not kw and (not args or (isinstance(args[0], int) and not isinstance(args[0], bool) and args[0] >= 0)):
         k = args[0] if args else 1
         r = Vec(([None] * k + list(obj.v))[:len(obj.v)], fresh=obj.fresh, aligned=obj.aligned)
